@@ -208,7 +208,7 @@ pub fn gen_sm(rng: &mut Rng, k: &Knobs) -> Value {
     let perform: Vec<Value> = (0..rng.below(5)).map(|_| {
         let progress: Vec<u32> = (0..rng.below(4)).map(|_| *rng.pick(&[0f32.to_bits(), 0.25f32.to_bits(), 0.5f32.to_bits(), 1f32.to_bits(), f32::NAN.to_bits()])).collect();
         let results: Vec<&str> = (0..5).map(|_| *rng.pick(&["installed", "installed", "installed", "deferred", "failed"])).collect();
-        json!({"progress": progress, "results": results})
+        json!({"progress": progress, "results": results, "concurrent": rng.chance(1, 2)})
     }).collect();
     let reboot: Vec<Value> = (0..rng.below(3)).map(|_| json!(rng.chance(3, 4))).collect();
     let stimuli: Vec<Value> = (0..rng.below(3 * k.max_checks + 1)).map(|_| match rng.below(8) {
